@@ -145,20 +145,35 @@ def _alarm(signum, frame):
 
 
 def call(fn, *args, budget=None, **kwargs):
-    """run fn; returns ('ok', value) or ('err', '!ExceptionClass'); a step budget (seconds) maps to !DIVERGED"""
-    if budget:
-        old = signal.signal(signal.SIGALRM, _alarm)
-        signal.setitimer(signal.ITIMER_REAL, budget)
+    """run fn; returns ('ok', value) or ('err', '!ExceptionClass'); a step budget maps to !DIVERGED.
+    The budget is CPU time of this process (ITIMER_VIRTUAL), not wall-clock time: a call that does not
+    terminate burns CPU and is stopped, while a busy machine that deschedules the process is not mistaken for
+    non-termination."""
+    if not budget:
+        try:
+            return "ok", fn(*args, **kwargs)
+        except Exception as exc:  # noqa: BLE001 - the enum is the observation
+            return "err", "!" + type(exc).__name__
+    old = signal.signal(signal.SIGVTALRM, _alarm)
+    result = None
     try:
-        return "ok", fn(*args, **kwargs)
-    except Timeout:
-        return "err", "!DIVERGED"
-    except Exception as exc:  # noqa: BLE001 - the enum is the observation
-        return "err", "!" + type(exc).__name__
+        try:
+            signal.setitimer(signal.ITIMER_VIRTUAL, budget)
+            try:
+                result = ("ok", fn(*args, **kwargs))
+            except Timeout:
+                result = ("err", "!DIVERGED")
+            except Exception as exc:  # noqa: BLE001
+                result = ("err", "!" + type(exc).__name__)
+            finally:
+                signal.setitimer(signal.ITIMER_VIRTUAL, 0)
+        except Timeout:
+            # the timer fired in the window between the end of fn and its disarming
+            if result is None:
+                result = ("err", "!DIVERGED")
     finally:
-        if budget:
-            signal.setitimer(signal.ITIMER_REAL, 0)
-            signal.signal(signal.SIGALRM, old)
+        signal.signal(signal.SIGVTALRM, old)
+    return result
 
 
 def show(v):
